@@ -70,6 +70,11 @@ func (fr *Frame) env(st *State, localsFirst bool) *CEnv {
 		return v.(Scalar).T, true
 	}
 	env.locals = func(name string, s *State) (Value, types.Type, bool) {
+		if name == "rangeindex" && fr.rangeCell != nil {
+			if v, ok := s.Locals[fr.rangeCell]; ok {
+				return v, fr.rangeCell.Typ, true
+			}
+		}
 		// latest-declared alloc with this name that has a cell in s
 		var best *ssa.Alloc
 		for a, c := range fr.cells {
